@@ -92,6 +92,8 @@ func (c *replacerCompiler) compile(v reflect.Value) Replacer {
 		return c.compileForStmt(v)
 	case goast.FuncTypePtrType:
 		return funcTypeReplacer{Replacer: c.compileGeneric(v)}
+	case goast.StarExprPtrType:
+		return starExprReplacer{Replacer: c.compileGeneric(v)}
 	case goast.CommentGroupPtrType:
 		// TODO: We're currently ignoring comments in the replacement patch.
 		// We should probably record them and report them in the top-level
@@ -131,6 +133,33 @@ func (r funcTypeReplacer) Replace(d data.Data, cl Changelog, pos token.Pos) (ref
 		}
 	}
 	return v, nil
+}
+
+// starExprReplacer reproduces a "*x" expression.
+type starExprReplacer struct{ Replacer }
+
+func (r starExprReplacer) Replace(d data.Data, cl Changelog, pos token.Pos) (reflect.Value, error) {
+	v, err := r.Replacer.Replace(d, cl, pos)
+	if err != nil {
+		return v, err
+	}
+	if se, ok := v.Interface().(*ast.StarExpr); ok && se != nil {
+		se.X = starOperand(se.X)
+	}
+	return v, nil
+}
+
+// starOperand returns x in the form in which it can be the operand of a "*".
+//
+// The parser records parentheses as nodes, and go/printer relies on that: it
+// adds the parentheses a generated operand of lower precedence needs for
+// every operator except this one (the node is also used for pointer types).
+// Without them "*" applied to the generated "p + 1" is printed as "*p + 1".
+func starOperand(x ast.Expr) ast.Expr {
+	if _, ok := x.(*ast.BinaryExpr); ok {
+		return &ast.ParenExpr{Lparen: x.Pos(), X: x, Rparen: x.End()}
+	}
+	return x
 }
 
 // ZeroReplacer replaces with a zero value.
